@@ -159,6 +159,9 @@ theorem forEachKeyLoop_eq (pred : Key → Bool) (l : List Ms) :
 
 /-! ## `Miniscript::iter` -/
 
+theorem branches_eq (ms : Ms) : ms.branches = ms.asNode.children := by
+  cases ms <;> simp [Ms.branches, Ms.asNode, Tree.children]
+
 theorem getNthChild_eq (ms : Ms) (n : Nat) : ms.getNthChild n = ms.asNode.children[n]? := by
   cases ms <;> simp [Ms.getNthChild, Ms.asNode, Tree.children] <;>
     (first
